@@ -4,7 +4,7 @@ import re
 
 from hypothesis import strategies as st
 
-from .. import adapter, exprparse, gen
+from .. import adapter, exprparse, gen, genx
 from .. import model as M
 from ..model import INT, FLOAT
 
@@ -12,7 +12,7 @@ LEVEL = "exploration"
 RULE = ("(a) SourceMapping: every text of length <= 10 over {x, newline} (2 047 texts) x every offset 0..len, plus "
         "Hypothesis texts over letters/space/tab/newline up to 300 characters x every offset: GetLineFromOffset must be the "
         "number of newlines before the offset and GetLineStartOffset the offset after the preceding newline. (b) "
-        "generated scalar-core programs printed under generated token-preserving layouts (leading blank lines, tabs, "
+        "generated scalar-core, vector/matrix and multi-function programs printed under generated token-preserving layouts (leading blank lines, tabs, "
         "several tokens per line, one token per line); the printer records the character range of every identifier, "
         "literal, parameter and declaration. For every PrimaryExpression / LiteralExpression / Argument / "
         "VariableDeclaration the parser produces, str(GetLocation()) read back through our own line table (1-based, end "
@@ -122,7 +122,8 @@ def laid_out(draw, toks, style=None):
 
 @st.composite
 def program_case(draw):
-    case = draw(gen.core_case(n_inputs=0))
+    case = draw(st.one_of(gen.core_case(n_inputs=0), gen.core_case(n_inputs=0), genx.vector_case(n_inputs=0),
+                          genx.calls_case(n_inputs=0)))
     pr = M.Printer(draw(st.sampled_from(["full", "min"])))
     pr.program(case.prog)
     text, offsets = draw(laid_out(pr.toks))
